@@ -105,6 +105,23 @@ SCHEME_HASH[(8, 27)] = ('sha384', None)
 SCHEME_HASH[(8, 28)] = ('sha512', None)
 
 
+def ssl3_master(pre, cr, sr):
+    """RFC 6101 6.1"""
+    pre, cr, sr = bytes(pre), bytes(cr), bytes(sr)
+    out = b''
+    for lab in (b'A', b'BB', b'CCC'):
+        out += hashlib.md5(pre + hashlib.sha1(lab + pre + cr + sr).digest()).digest()
+    return out
+
+
+def ssl3_cv_hashes(transcript, ms):
+    """RFC 6101 5.6.8: md5_hash and sha_hash of the CertificateVerify"""
+    transcript, ms = bytes(transcript), bytes(ms)
+    md5h = hashlib.md5(ms + b'\x5c' * 48 + hashlib.md5(transcript + ms + b'\x36' * 48).digest()).digest()
+    shah = hashlib.sha1(ms + b'\x5c' * 40 + hashlib.sha1(transcript + ms + b'\x36' * 40).digest()).digest()
+    return md5h, shah
+
+
 def spec_verify_bytes(ver, transcript, scheme, role, prf, key_type):
     """Bytes handed to the signature primitive, written from the RFCs (independent of
     KeyExchange.calcVerifyBytes).  Returns (bytes, digest_entries, hash_entries)."""
@@ -129,7 +146,8 @@ def spec_verify_bytes(ver, transcript, scheme, role, prf, key_type):
             return PKCS1_PREFIX[hname] + d, [(hname, d)], [(d, 'pkcs1:' + hname, PKCS1_PREFIX[hname] + d)]
         return d, [(hname, d)], []
     if ver in ((3, 1), (3, 2)):
-        n = 'sha1' if key_type == 'ecdsa' else None      # NB tlslite also uses MD5||SHA1 for DSA (RFC 4346: SHA-1)
+        # RFC 2246 / 4346 7.4.8: RSA signs MD5||SHA-1, DSA the SHA-1 hash alone; RFC 4492 5.8: ECDSA SHA-1
+        n = 'sha1' if key_type in ('ecdsa', 'dsa') else None
         d = digest_of(transcript, n)
         return d, [(n, d)], []
     return None, [], []
@@ -207,7 +225,7 @@ class Cap(object):
         self.msgs = []
 
 
-def sig_answer(m, cap_cv, cert_name, ver, role, prf, honest):
+def sig_answer(m, cap_cv, cert_name, ver, role, prf, honest, ssl3=None):
     """fill the model's CertificateVerify inputs and the observed signature answer"""
     scheme, sig, transcript = cap_cv
     chain = loop.creds(cert_name)[0]
@@ -216,7 +234,16 @@ def sig_answer(m, cap_cv, cert_name, ver, role, prf, honest):
     ver = tuple(ver)
     m['cv'] = (tuple(scheme) if scheme is not None else None, [7])
     if ver == (3, 0):
-        m['by_construction'].append('sig(sslv3)')
+        if ssl3 is not None and kt in ('rsa', 'dsa'):
+            # RFC 6101 5.6.8: RSA signs md5_hash || sha_hash, DSA sha_hash alone (both keyed with the master secret)
+            md5h, shah = ssl3_cv_hashes(transcript, ssl3_master(*ssl3))
+            vb = md5h + shah if kt == 'rsa' else shah
+            ans = P.pubkey_verify(pub, ver, None, bytearray(vb), sig, kt)
+            m['a_ssl'] = md5h + shah              # what HandshakeHashes.digestSSL yields (the model's o_digestSSL)
+            m['a_sig'].append((CRED_ID[cert_name], m['a_ssl'], ans))
+            m['sig_answer'] = ans
+            return
+        m['by_construction'].append('sig(sslv3)')   # ECDSA with SSLv3 is not specified anywhere
         m['a_ssl'] = b'\x01'
         m['a_sig'].append((CRED_ID[cert_name], b'\x01', bool(honest)))
         return
@@ -401,6 +428,13 @@ def site_cert(case, rng):
                             e.sigalgs = [sch]
         r.send_hook(peer, target, resign)
         r.recv_hook(peer, mutate)
+        if verifier == 'server' and ver == (3, 0):
+            orig_cf = peer._clientFinished        # the PEER's premaster secret (SSLv3 CertificateVerify is keyed)
+
+            def _cf(premasterSecret, *a, **kw):
+                r.cap['premaster'] = bytes(premasterSecret)
+                return orig_cf(premasterSecret, *a, **kw)
+            peer._clientFinished = _cf
         kind = 'cert'
         if verifier == 'client':
             ckw = dict(settings=vst)
@@ -450,7 +484,10 @@ def site_cert(case, rng):
     if verifier == 'server' or tls13:
         if cap['cv'] is not None:
             role = b'server' if verifier == 'client' else b'client'
-            sig_answer(m, cap['cv'], name, ver, role, prf, honest)
+            ssl3 = None
+            if ver == (3, 0) and cap.get('premaster') is not None and cap['cr'] and cap['sr']:
+                ssl3 = (cap['premaster'], cap['cr'], cap['sr'])
+            sig_answer(m, cap['cv'], name, ver, role, prf, honest, ssl3=ssl3)
     if not tls13 and verifier == 'client' and cap['ske'] is not None and m['kx'] != 0:
         ske = cap['ske']
         params = bytes(ske.writeParams())
@@ -1026,6 +1063,7 @@ def site_dc(case, rng):
     m['cert'] = cm
     m['offered'] = r.cap.get('offered') or []
     m['dc_offered'] = r.cap.get('dc_offered') or []
+    m['valid'] = valid_list(cst, ee_chain, ver)
     pub = chain.getEndEntityPublicKey()
     m['a_sig'].append((CRED_ID[name], tbs_ee, scheme_verify(pub, calg, tbs_ee, dsig)))
     if r.cap['cv'] is not None:
